@@ -70,6 +70,13 @@ def build_model(spec, fresh=False):
             m = NoOpModel(**kw)
         else:
             m = Model(**kw)
+        # the tables handed to the constructor belong to the caller: changing them afterwards must not change the model
+        for r in list(kw['roles']):
+            kw['normalizations'][r] = ':scribbled'
+            kw['normalizations'][r + '-of'] = ':scribbled'
+        for k_ in list(t['normalizations']):
+            del kw['normalizations'][k_]
+        kw['roles'].clear()
     if not fresh:
         _MODEL_CACHE[key] = m
     return m
